@@ -155,3 +155,31 @@ Definition ocase_attrib (cfg : deviations) (c : ocase) : list nat :=
 
 Definition ocase_explain (cfg : deviations) (c : ocase) :=
   (ocase_run cfg c, model_passed c, expected_data (oc_site c) (oc_nargs c) (oc_nparams c) (oc_kws c)).
+
+(* ================= overlapping calls of one service (stream "overlap") =================
+   The generated service function computes a local from its own data, suspends in task.sleep for a per-call duration and
+   returns a value computed from the local and the data.  Model: every incoming call is an independent activation of the
+   current definition (the handler builds a fresh evaluation context per call), so each call returns the value for its own
+   data whatever the interleaving; Spec: "runs the definition with the call's data ... and returns its result". *)
+Record vcall := mk_vcall {
+  vc_a : Z; vc_start : N; vc_dur : N;          (* data, virtual start time, time spent suspended *)
+  vc_ret : option (Z * Z)                      (* observed response: (result, the data the function says it ran with) *)
+}.
+Record vcase := mk_vcase {
+  vv_calls : list vcall;
+  vv_fired : list (Z * Z * bool)               (* observed runs: (data seen, result computed, trigger_type='service') *)
+}.
+Definition ov_fun (a : Z) : Z := (a * 2 + 1 + a)%Z.      (* mine = a*2+1; sleep; res = mine + a *)
+Definition model_activation (a : Z) : Z * Z := (ov_fun a, a).
+
+Definition ret_eqb (x y : option (Z * Z)) : bool :=
+  option_eqb (fun p q => Z.eqb (fst p) (fst q) && Z.eqb (snd p) (snd q)) x y.
+Definition vcase_model_ok (c : vcase) : bool :=
+  forallb (fun v => ret_eqb (vc_ret v) (Some (model_activation (vc_a v)))) (vv_calls c)
+  && Nat.eqb (length (vv_fired c)) (length (vv_calls c))
+  && forallb (fun '(a, r, is_svc) => Z.eqb r (ov_fun a) && is_svc) (vv_fired c)
+  && forallb (fun v => existsb (fun '(a, _, _) => Z.eqb a (vc_a v)) (vv_fired c)) (vv_calls c).
+(* the property: each call returns the result for its own data *)
+Definition vcase_spec_ok (c : vcase) : bool :=
+  forallb (fun v => match vc_ret v with Some (r, a) => Z.eqb a (vc_a v) && Z.eqb r (ov_fun (vc_a v)) | None => false end) (vv_calls c).
+Definition vcase_explain (c : vcase) := map (fun v => (vc_a v, model_activation (vc_a v), vc_ret v)) (vv_calls c).
